@@ -103,7 +103,7 @@ Definition is_nil {A} (l : list A) : bool := match l with [] => true | _ => fals
 (* one Registry.Gather run against model and specification *)
 Definition check_gather (lg ped : bool) (ids : list Z) (arr : list emitted) (ifams : list family) (ierrs : list Z) : Z :=
   let (mfams, merrs) := gather lg ped ids arr in
-  both (valid_result lg ifams && family_names_ok lg ifams && no_empty_family ifams &&
+  both (valid_result lg ifams && family_names_ok lg ifams && no_empty_family ifams && metrics_sorted ifams &&
         complete_or_reported arr ifams (length ierrs))
        (fams_eqb ifams mfams && kinds_agree ierrs merrs).
 
@@ -121,7 +121,7 @@ Definition check (s : sx) : Z :=
           (* the validity clauses are demanded when every merged gatherer hands in well-typed, named families *)
           let typed := forallb (fun g => forallb (fun f => (0 <=? f_type f) && (f_type f <=? 4) &&
                                    match f_name f with [] => false | _ => true end) (fst g)) gs in
-          both (negb typed || (valid_result lg ifams && no_empty_family ifams))
+          both (metrics_sorted ifams && (negb typed || (valid_result lg ifams && no_empty_family ifams)))
                (fams_eqb ifams mfams && kinds_agree ierrs merrs)
       | _, _, _, _ => code_decode_error
       end
@@ -149,13 +149,13 @@ Definition e_dmetric (m : dmetric) : sx :=
 Definition e_family (f : family) : sx := SL [eStr (f_name f); eStr (f_help f); SZ (f_type f); eL e_dmetric (f_metrics f)].
 
 (* (model families, model errors, valid_result of the implementation's families, no_empty, complete_or_reported,
-   family_names_ok); for a pair of orders (case 2): the explanation of both runs *)
+   family_names_ok, metrics_sorted); for a pair of orders (case 2): the explanation of both runs *)
 Definition explain_gather (lg ped ids arr ifams ierrs : sx) : sx :=
   match dB lg, dB ped, dL dZ ids, dL d_emitted arr, dL d_family ifams, dL dZ ierrs with
   | Some lg, Some ped, Some ids, Some arr, Some ifams, Some ierrs =>
       let (mfams, merrs) := gather lg ped ids arr in
       SL [eL e_family mfams; eL SZ merrs; eB (valid_result lg ifams); eB (no_empty_family ifams);
-          eB (complete_or_reported arr ifams (length ierrs)); eB (family_names_ok lg ifams)]
+          eB (complete_or_reported arr ifams (length ierrs)); eB (family_names_ok lg ifams); eB (metrics_sorted ifams)]
   | _, _, _, _, _, _ => SL []
   end.
 
